@@ -1,11 +1,13 @@
 //! Entry point of the penguin-mux / cow-bytes / penguin-socks checks.
 //! `vmux <ID> --tier quick|thorough --out FILE [--replay FILE] [--threads N]`
 
+mod apps;
 mod codec;
 mod drivers;
 mod explore;
 mod link;
 mod sim;
+mod wiremon;
 
 pub use vcommon::{Args, report};
 
